@@ -9,8 +9,8 @@ import (
 
 func init() {
 	register("C42", []string{"."}, runC42)
-	propExplain["C42"] = "Decides lock-discipline clauses of C42 (races are dynamic; this is the static part): every access to a field that DB.mu protects (the fields of the DB.mu struct, minus the documented atomics / pipeline-protected fields) happens with DB.mu held, established by an intra-procedural lock state plus requires-held summaries over static and interface callees, with the calling context of every root (exported entry points, goroutine bodies, callbacks) either holding the lock or documented; and the documented lock order is respected: no function acquires commitPipeline.mu while it holds DB.mu. Does not decide data races on unprotected fields, deadlock freedom in general, or panics."
-	propTechnique["C42"] = "lockset analysis (SSA lock state + requires-held summaries over the call graph), lock-order check"
+	propExplain["C42"] = "Decides lock-discipline clauses of C42 (races are dynamic; this is the static part): every access to a field that DB.mu protects (the fields of the DB.mu struct, minus the documented atomics / pipeline-protected fields) happens with DB.mu held, established by an intra-procedural lock state plus requires-held summaries over static and interface callees, with the calling context of every root (exported entry points, goroutine bodies, callbacks) either holding the lock or documented; the same analysis for the version set's second lock: the MANIFEST writer (versionSet.manifest) and latest.blobFiles, which UpdateVersionLocked mutates while DB.mu is released, are accessed only between logLock and logUnlock; and the documented lock order is respected: no function acquires commitPipeline.mu while it holds DB.mu. Does not decide data races on unprotected fields, deadlock freedom in general, or panics."
+	propTechnique["C42"] = "lockset analysis for two locks (SSA lock state + requires-held summaries over the call graph), lock-order check"
 }
 
 // dbMuExempt: first-level fields of DB.mu that are NOT protected by DB.mu
@@ -92,6 +92,7 @@ func runC42(c *Ctx) {
 	}
 	c.Note("C42.L1: %d accesses to DB.mu-protected fields analysed", n)
 	c.Ob("C42.L1", nil, "DB.mu-protected field accesses analysed", "", n > 50, "")
+	runC42L3(c)
 	// L2: lock order DB.mu -> commitPipeline.mu is forbidden (commit.mu is acquired first)
 	commitMuF := c.Field("C42.L2", "p.commitPipeline.mu")
 	commitLock := M{Desc: "commitPipeline.mu.Lock", F: func(in ssa.Instruction) bool {
@@ -127,4 +128,50 @@ func runC42(c *Ctx) {
 	if nOrder < 3 {
 		c.Unresolved("C42.L2", "fewer than 3 commitPipeline.mu.Lock sites found")
 	}
+}
+
+// c42L3Held: functions that touch the MANIFEST writer / the blob-file set and run with the
+// manifest log lock held by their caller, or before/after the DB is shared.
+var c42L3Held = map[string]string{
+	"p.Open": "before Open returns no other goroutine can reach the DB; the version set is built single-threaded (initNewDB / initRecoveredDB)",
+}
+
+// runC42L3: the second lock of the version set. UpdateVersionLocked releases DB.mu for the
+// MANIFEST I/O; during that window only the manifest log lock (logLock/logUnlock) protects the
+// MANIFEST record.Writer (versionSet.manifest) and latest.blobFiles, which the I/O phase mutates.
+// Every access to those two fields happens with the log lock held.
+func runC42L3(c *Ctx) {
+	manifestF := c.Field("C42.L3", "p.versionSet.manifest")
+	blobFilesF := c.Field("C42.L3", "p.latestVersionState.blobFiles")
+	ls := &LockSet{c: c, Rule: "C42.L3",
+		IsLock:      CallTo("p.(*versionSet).logLock"),
+		IsUnlock:    CallTo("p.(*versionSet).logUnlock", "p.(*versionSet).logUnlockAndInvalidatePickedCompactionCache"),
+		Funcs:       pebbleFuncs(c),
+		HeldAtEntry: c42L3Held,
+		Site: func(in ssa.Instruction) (string, bool) {
+			fa, ok := in.(*ssa.FieldAddr)
+			if !ok {
+				return "", false
+			}
+			switch fieldVar(fa.X.Type(), fa.Field) {
+			case manifestF:
+				return "access to versionSet.manifest", true
+			case blobFilesF:
+				return "access to latest.blobFiles", true
+			}
+			return "", false
+		}}
+	ls.Run()
+	n := 0
+	for _, fn := range ls.Funcs {
+		for _, b := range fn.Blocks {
+			for _, in := range b.Instrs {
+				if _, ok := ls.Site(in); ok {
+					n++
+				}
+			}
+		}
+	}
+	c.Note("C42.L3: %d accesses to manifest-lock-protected fields analysed", n)
+	c.Ob("C42.L3", nil, "manifest-lock-protected field accesses analysed", "", n >= 10, "")
 }
